@@ -138,7 +138,11 @@ def main(argv):
           print('note: listed finding %s no longer reproduces (%s)' % (e.get('id'), r))
     # 3. partitions
     parts = list(partitions(t.get('split', {})))
+    first_part = parts[0] if parts else {}
     rng.shuffle(parts)
+    if parts:   # the vacuity twin runs on the first partition in declared order
+      parts.remove(first_part)
+      parts.insert(0, first_part)
     specs = []
     for pins in parts:
       allpins = dict(t.get('fixed', {}))
